@@ -74,5 +74,5 @@ Inv ==
                         pf |-> cas.m.c.pf, nf |-> cas.m.c.nf, iexp |-> cas.m.c.iexp,
                         imp1 |-> r1.rep.imp, imp2 |-> r2.rep.imp, diff2 |-> r2.rep.diff, out |-> r2.rep.out,
                         sec |-> r2.rep.sec, uo |-> r2.rep.uo, us |-> r2.rep.us]))
-       /\ (~(r1.ok /\ r2.ok) \/ Emit("N", [profit |-> RoundTripProfit(e1, e2)]))
+       /\ (~(r1.ok /\ r2.ok) \/ Emit("N", [profit |-> RoundTripProfit(e1, e2), tol |-> RoundTripTol(e1), conv |-> CapConvention(cas.m.c)]))
 =============================================================================
